@@ -834,7 +834,7 @@ CLAIMS["C03"]["text"] += (
 CLAIMS["C03"]["note"] += (
     " Round 11 — proved: the three theorems above (axioms propext, Classical.choice, Quot.sound). Four places where Wt alone was "
     "too weak became decidable conjuncts of the fragment (enum field read without the variant fact; struct N vs enum N; dispatch "
-    "row vs implementing function; wildcard-compatible vs exact callee instance). Not proved (closures / function values were added in the second pass, trait calls on receivers of parametric type in the third, arrays / Vec in the fourth): Ref (store typing: side file Lemmas/ValTyStore.lean, not connected), "
+    "row vs implementing function; wildcard-compatible vs exact callee instance). Not proved (closures / function values were added in the second pass, trait calls on receivers of parametric type in the third, arrays / Vec in the fourth): (Ref in the fifth pass), "
     "trait objects, go, impls for instances of generic types, progress. Validated "
     "only: the static-dispatch oracle on programs outside the fragment. In real Core dumps the typer has already resolved every "
     "trait-method call on a concrete receiver to a direct call; every ETraitCall left has a receiver of parametric type.")
@@ -857,6 +857,15 @@ CLAIMS["C03"]["text"] += (
     "fragment. Lemmas/ValTyStore.lean holds the store-typing development for Ref (typing monotone under append-only extension of "
     "the store typing, world invariant, allocation, read, no dangling reference) — proved, NOT yet connected to "
     "sem_preserves_types_partial: programs using Ref are still outside the fragment.")
+CLAIMS["C03"]["text"] += (
+    " Fifth pass: references. ValTyR.VT S P Psi (Model/ValTyRef.lean) indexes value typing by a store typing; "
+    "sem_preserves_types_store_partial (Props/C03.lean): in a program whose functions are Wt-consistent and in the fragment WITH the "
+    "reference builtins (okProg S P true: ref / ref_get / ref_set admitted), from a world satisfying the invariant WT S P Psi w, a "
+    "value returned by Sem.eval inhabits its annotation under an append-only extension Psi' of the store typing and the new world "
+    "satisfies WT for Psi'; sem_preserves_types_main_partial (a whole run of main from the empty store); "
+    "traitcall_static_dispatch_store. The whole induction (20 node kinds, lists, arms, apply) is re-proved over the store-typed "
+    "predicate (Lemmas/ValTy2*.lean, monotonicity of typing under extension); the reference-free theorem is kept as it was. The "
+    "driver now evaluates the fragment with references on every real Core dump.")
 CLAIMS["C07"]["note"] += (
     " Round 11: traitcall_static_dispatch (Props/C03.lean) proves, on the fragment of sem_preserves_types_partial, the typing "
     "invariant traitcall_commutes assumes (runtime key = key of the instantiated static type); ./check C07 also runs the "
